@@ -56,7 +56,7 @@ def run(ctx):
     atb = em["add_tx_to_block"]
     idx = atb.j["param_names"].index("inscription_byte_len")
     nmax = 0
-    for f in F.body_fns():
+    for f in F.host_units():
         for c in f.calls():
             if c.target_id == atb.id and not f.is_cleanup(c.bb):
                 t = W.strip(origin(f, c.args[idx]))
